@@ -1,11 +1,11 @@
 #!/bin/sh
 # usage: run_seed.sh <seed-id> <check-id> [extra check args]  -> runs the check against a patched copy of /repo
 ID=$1; CHK=$2; shift 2
-D=/var/tmp/seedrepo_$ID
+D=/var/tmp/seedrepo_${ID}_$CHK
 rm -rf $D; mkdir -p $D
 rsync -a --exclude .git /repo/ $D/
 ( cd $D && patch -p1 -s < /verif/seeded/$ID/patch.diff ) || { echo "patch failed"; exit 2; }
 cd /verif
-VP_REPO=$D VP_EVIDENCE_DIR=/var/tmp/seed_evidence ./check $CHK "$@" > /var/tmp/seedrun_${ID}_${CHK}.log 2>&1
+VP_REPO=$D VP_EVIDENCE_DIR=/var/tmp/seed_evidence_${ID}_$CHK VP_REPLAY_DIR=/var/tmp/seed_replays ./check $CHK "$@" > /var/tmp/seedrun_${ID}_${CHK}.log 2>&1
 echo "seed=$ID check=$CHK exit=$? $(grep -c '^VIOLATION' /var/tmp/seedrun_${ID}_${CHK}.log) violations"
-rm -rf $D
+rm -rf $D /var/tmp/seed_evidence_${ID}_$CHK
